@@ -166,6 +166,29 @@ pub fn l4_cases() -> Vec<L1Case> {
         mant.push(("1".into(), Some("5".repeat(k))));
         mant.push((format!("{}", "123456789".repeat(k / 9 + 1)), Some("5".into())));
     }
+    // every digit value in every region of a long fraction / integer part: the scanners switch to a
+    // "skip the remaining digits" loop once the 64-bit accumulator is full, and that loop has its
+    // own digit test
+    let rot = |k: usize, from: usize| -> String { (0..k).map(|i| char::from(b'0' + ((i + from) % 10) as u8)).collect() };
+    for &k in &ks {
+        for d in 0..=9u8 {
+            let ds: String = std::iter::repeat(char::from(b'0' + d)).take(k).collect();
+            mant.push(("0".into(), Some(ds.clone())));
+            if d > 0 {
+                mant.push((ds, Some("5".into())));
+            }
+        }
+        mant.push(("1".into(), Some(rot(k, 1))));
+        mant.push((rot(k, 1), Some(rot(k, 7))));
+    }
+    for p in [1usize, 17, 18, 19, 20, 21, 22, 25, 40, 100, 399] {
+        for d in ['1', '5', '9'] {
+            mant.push(("3".into(), Some(format!("{}{}", "0".repeat(p - 1), d))));
+            mant.push(("3".into(), Some(format!("{}{}1", "1".repeat(p - 1), d))));
+            mant.push((format!("{}{}1", "1".repeat(p - 1), d), None));
+            mant.push((format!("{}{}", "1".repeat(p - 1), d), Some("25".into())));
+        }
+    }
     mant.push(("0".into(), Some("0".into())));
     mant.push(("0".into(), None));
     mant.push(("17976931348623157".into(), None));
@@ -336,7 +359,7 @@ pub fn run(ctx: &Ctx) -> Report {
     if ctx.want("L4-long-forms") {
         let name = sfx("L4-long-forms");
         let cases = l4_cases();
-        let sub = Sub::new(&name, &format!("long forms: 1 followed by k zeros, k nines, 0.0…01, u64::MAX followed by k digits, 2^53+1 with k fractional zeros (halfway cases), 1.55…5, k in 1..=40, 100, 400; each without exponent and with every exponent in +-{{0..30, 300..330, 400, 4000, 2^31-1, 2^31, 10^12}}; both signs{}; non-trivial = accepted or correctly rejected", build), &format!("{} literals", cases.len()));
+        let sub = Sub::new(&name, &format!("long forms: 1 followed by k zeros, k nines, 0.0…01, u64::MAX followed by k digits, 2^53+1 with k fractional zeros (halfway cases), 1.55…5, every digit repeated k times as fraction and as integer part, rotating digit strings, a digit 1/5/9 at positions 1, 17..22, 25, 40, 100, 399 of a long fraction / integer; k in 1..=40, 100, 400; each without exponent and with every exponent in +-{{0..30, 300..330, 400, 4000, 2^31-1, 2^31, 10^12}}; both signs{}; non-trivial = accepted or correctly rejected", build), &format!("{} literals", cases.len()));
         let accs = par_ranks(cases.len() as u64, |rank, acc| {
             let c = &cases[rank as usize];
             acc.sample(rank, || trunc(&c.text, 60));
